@@ -21,6 +21,11 @@
      Lri, RevnoOf   Branch.last_revision_info, Branch.revision_id_to_revno verbs
      RevTree        VersionedFileRepository.get_inventories + Repository.iter_files_bytes
      GenHist        RemoteBranch.generate_revision_history (Branch.set_last_revision_ex)
+     StaleLock      environment: a branch lock left in place on disk (LockDir), repository free;
+                    every branch write then fails in SmartServerBranchRequestLockWrite / BzrBranch.lock_write
+                    and must leave the repository unlocked (state [rlocked], knit-family formats lock physically)
+     Sign           Repository.lock_write, start_write_group, sign_revision* (Repository.add_signature_text
+                    verb, write-group tokens), commit_write_group / abort_write_group
 
    Revisions are Lib/Dag indices; [g] is the universe (source history + commits made during
    the run), [have] the sorted list of revisions stored in the target repository.
@@ -50,7 +55,11 @@ Record st := mkSt {
   revno : nat;
   tags : list (nat * nat);         (* tag index -> revision, sorted by tag index *)
   conf : list (nat * nat);         (* option index -> value index, sorted *)
-  locked : bool                    (* a write lock is held by another client *)
+  locked : bool;                   (* the branch is physically locked by somebody else *)
+  rlocked : bool;                  (* the repository is physically locked by somebody else *)
+  knit : bool;                     (* format constant: knit-family repository (lock_write takes a physical
+                                      lock, write groups are not transactional); false for pack formats *)
+  signed : list revid              (* revisions with a stored signature, sorted *)
 }.
 
 Inductive op :=
@@ -69,7 +78,9 @@ Inductive op :=
 | Lri
 | RevnoOf (r : revid)
 | RevTree (r : revid)
-| GenHist (r : revid).
+| GenHist (r : revid)
+| StaleLock                        (* environment: a branch lock left in place, the repository free *)
+| Sign (rs : list revid).          (* sign_revision for each of rs inside ONE write group *)
 
 (* ---- sorted association lists -------------------------------------------- *)
 
@@ -102,10 +113,28 @@ Definition merge_have (g : dag) (h extra : list revid) : list revid :=
   filter (fun r => memb r h || memb r extra) (seq 0 (length g)).
 
 Definition fetched (x : st) (s : revid) : st :=
-  mkSt (g x) (merge_have (g x) (have x) (closure (g x) s)) (tip x) (revno x) (tags x) (conf x) (locked x).
+  mkSt (g x) (merge_have (g x) (have x) (closure (g x) s)) (tip x) (revno x) (tags x) (conf x)
+       (locked x) (rlocked x) (knit x) (signed x).
 
 Definition set_tip (x : st) (t : revid) (n : nat) : st :=
-  mkSt (g x) (have x) (Some t) n (tags x) (conf x) (locked x).
+  mkSt (g x) (have x) (Some t) n (tags x) (conf x) (locked x) (rlocked x) (knit x) (signed x).
+
+Definition with_tags (x : st) (t : list (nat * nat)) : st :=
+  mkSt (g x) (have x) (tip x) (revno x) t (conf x) (locked x) (rlocked x) (knit x) (signed x).
+Definition with_conf (x : st) (c : list (nat * nat)) : st :=
+  mkSt (g x) (have x) (tip x) (revno x) (tags x) c (locked x) (rlocked x) (knit x) (signed x).
+Definition with_locks (x : st) (l rl : bool) : st :=
+  mkSt (g x) (have x) (tip x) (revno x) (tags x) (conf x) l rl (knit x) (signed x).
+Definition with_signed (x : st) (sg : list revid) : st :=
+  mkSt (g x) (have x) (tip x) (revno x) (tags x) (conf x) (locked x) (rlocked x) (knit x) sg.
+
+(* the revisions of rs up to the first one that is not stored *)
+Fixpoint present_prefix (h rs : list revid) : list revid :=
+  match rs with
+  | [] => []
+  | r :: rest => if memb r h then r :: present_prefix h rest else []
+  end.
+Definition all_present (h rs : list revid) : bool := forallb (fun r => memb r h) rs.
 
 (* ---- observations ----------------------------------------------------------- *)
 
@@ -115,7 +144,7 @@ Definition oassoc (l : list (nat * nat)) : obs := olist (fun p => OL [onat (fst 
 (* what is read back from disk after every operation *)
 Definition observe (x : st) : obs :=
   OL [onat (revno x); otip (tip x); oassoc (tags x); oassoc (conf x); olist onat (have x);
-      obool (locked x); OZ 0].
+      obool (locked x); obool (rlocked x); olist onat (signed x); OZ 0].
 
 Definition update_result (old new : st) : obs :=
   OL [onat (revno old); otip (tip old); onat (revno new); otip (tip new)].
@@ -178,7 +207,7 @@ Definition next_fresh (g : dag) : bool := fresh_next g.
 
 Definition mutating (o : op) : bool :=
   match o with
-  | Push _ _ | Pull _ _ | Commit | SetTag _ _ | DelTag _ | SetConf _ _ _ | Lock | GenHist _ => true
+  | Push _ _ | Pull _ _ | Commit | SetTag _ _ | DelTag _ | SetConf _ _ _ | Lock | StaleLock | GenHist _ => true
   | _ => false
   end.
 
@@ -200,8 +229,9 @@ Definition step (c : cfg) (x : st) (o : op) : obs * st :=
   | Push s ow => update x s ow
   | Pull s ow => update x s ow
   | Fetch s =>
-      (* pack repositories take no long-lived physical lock: a held BRANCH lock does not stop a fetch *)
-      (OT "ok", fetched x s)
+      (* pack repositories take no long-lived physical lock: a held BRANCH lock does not stop a fetch;
+         a knit-family repository is locked together with the branch by Lock (not by StaleLock) *)
+      if rlocked x then (OE "LockContention", x) else (OT "ok", fetched x s)
   | PullFrom =>
       (OL [onat (revno x); otip (tip x);
            olist onat (match tip x with None => [] | Some t => merge_have (g x) [] (closure (g x) t) end);
@@ -211,18 +241,29 @@ Definition step (c : cfg) (x : st) (o : op) : obs * st :=
       then let new := length (g x) in
            (onat new,
             mkSt (g x ++ [match tip x with None => [] | Some t => [t] end]) (have x ++ [new])
-                 (Some new) (S (revno x)) (tags x) (conf x) (locked x))
+                 (Some new) (S (revno x)) (tags x) (conf x) (locked x) (rlocked x) (knit x) (signed x))
       else (OE "ModelIdCollision", x)     (* numbering artefact: the next index is used as a ghost id *)
-  | SetTag t r => (ON, mkSt (g x) (have x) (tip x) (revno x) (ains t r (tags x)) (conf x) (locked x))
+  | SetTag t r => (ON, with_tags x (ains t r (tags x)))
   | DelTag t =>
       match aget t (tags x) with
-      | Some _ => (ON, mkSt (g x) (have x) (tip x) (revno x) (adel t (tags x)) (conf x) (locked x))
+      | Some _ => (ON, with_tags x (adel t (tags x)))
       | None => (OE "NoSuchTag", x)
       end
-  | SetConf o' v _ => (ON, mkSt (g x) (have x) (tip x) (revno x) (tags x) (ains o' v (conf x)) (locked x))
-  | Lock => (OT "ok", mkSt (g x) (have x) (tip x) (revno x) (tags x) (conf x) true)
+  | SetConf o' v _ => (ON, with_conf x (ains o' v (conf x)))
+  | Lock => (OT "ok", with_locks x true (knit x))      (* BzrBranch.lock_write locks the repository too *)
+  | StaleLock => (OT "ok", with_locks x true false)
+  | Sign rs =>
+      (* Repository.lock_write / start_write_group / sign_revision* / commit_write_group.
+         RPC write-group verbs on pack formats; knit-family repositories need VFS for it and do
+         not roll back what was signed before a failure *)
+      if rlocked x then (OE "LockContention", x)
+      else if knit x && remote c && negb (vfs c) then (OE "UnknownErrorFromSmartServer", x)
+      else if all_present (have x) rs
+      then (OT "ok", with_signed x (merge_have (g x) (signed x) rs))
+      else (OE "NoSuchRevision",
+            if knit x then with_signed x (merge_have (g x) (signed x) (present_prefix (have x) rs)) else x)
   | Unlock =>
-      if locked x then (OT "ok", mkSt (g x) (have x) (tip x) (revno x) (tags x) (conf x) false)
+      if locked x then (OT "ok", with_locks x false false)
       else (OT "not-held", x)
   | ParentMap keys => (parent_map c x keys, x)
   | GetRev r =>
@@ -262,11 +303,11 @@ Fixpoint final (c : cfg) (x : st) (ops : list op) : st :=
 
 (* ---- the correspondence entry point ----------------------------------------------------- *)
 
-Definition init_state (g0 : dag) (init : option revid) : st :=
+Definition init_state (g0 : dag) (init : option revid) (kn : bool) : st :=
   match init with
-  | None => mkSt g0 [] None 0 [] [] false
+  | None => mkSt g0 [] None 0 [] [] false false kn []
   | Some t => mkSt g0 (merge_have g0 [] (closure g0 t)) (Some t)
-                   (match distance_to_null g0 t with Some n => n | None => 0 end) [] [] false
+                   (match distance_to_null g0 t with Some n => n | None => 0 end) [] [] false false kn []
   end.
 
 Definition cfg_local := mkCfg false true true.
@@ -274,7 +315,7 @@ Definition cfg_vfs := mkCfg true true true.
 Definition cfg_novfs := mkCfg true false true.
 Definition cfg_old := mkCfg true true false.     (* a server without the post-1.12 verbs *)
 
-Definition run_case (g0 : dag) (init : option revid) (old : bool) (ops : list op) : obs :=
-  let x := init_state g0 init in
+Definition run_case (g0 : dag) (init : option revid) (kn old : bool) (ops : list op) : obs :=
+  let x := init_state g0 init kn in
   OL ([OL (run cfg_local x ops); OL (run cfg_vfs x ops); OL (run cfg_novfs x ops)]
       ++ (if old then [OL (run cfg_old x ops)] else [])).
